@@ -295,7 +295,7 @@ func load(c *hk.Ctx, yamlDoc string, a, b, d bool) *loaded {
 	viper.Set("concurrentWorkflowTemplateProcessing", a)
 	viper.Set("concurrentWorkflowTemplateIteratorProcessing", b)
 	viper.Set("concurrentIteratorRoleExpansion", d)
-	envId := uid.New()
+	envId := uid.ID("2rE9AV3m1HL") // a fixed id: the process-wide generator keeps state across runs
 	pa := workflow.NewParentAdapter(
 		func() uid.ID { return envId }, func() uint32 { return 0 },
 		func() gera.Map[string, string] { return gera.MakeMap[string, string]() },
